@@ -1,6 +1,7 @@
 """C06 — boolean restriction trees evaluate as propositional logic; normal forms agree (structural clauses)."""
 import ast
 
+from ..core import generic as G
 from ..core import astutil as A
 from ..core import match as M
 from ..core.cfg import cfg_of
@@ -187,6 +188,13 @@ def run(ctx):
                           and A.unparse(comp.generators[0].iter) == "self.restrictions" and not comp.generators[0].ifs)
             ctx.check("R3", m, ok, f"demorgan:{name}", f"{cname}.{name}: negation delegates to {dual}(*[Negate(x) for every child])",
                       f"{cname}.{name}: the negate arm does not build {dual} over restriction.Negate of every child", node=ni)
+            # ... and asks the dual for the SAME normal form (a DNF of the dual is not a CNF of this node)
+            form = "cnf" if "cnf" in name else "dnf"
+            asked = sorted({A.call_attr(c) for s_ in ni.body for c in A.calls(s_) if (A.call_attr(c) or "").endswith("_solutions")})
+            ctx.check("R3", m, bool(asked) and all(form in a_ for a_ in asked), f"demorgan-form:{name}",
+                      f"{cname}.{name}: the negate arm asks the dual node for its {form.upper()}",
+                      f"{cname}.{name} is a {form.upper()} generator but its negate arm returns the dual node's {asked}: the clauses of the other normal "
+                      f"form are handed out as {form.upper()} clauses ((!a)&&(!b) instead of (!a||!b))", node=ni)
     ctx.floor("R3", 6)
 
     # ---- R4 CNF of an any-of distributes over EVERY conjunctive alternative ------------------------------
@@ -209,6 +217,41 @@ def run(ctx):
         ctx.check("R4", oc, len(names) == 2 and all(n in used for n in names) and isinstance(st.value.elt, ast.BinOp) and isinstance(st.value.elt.op, ast.Add), "cnf-clause-extension", "each new clause is an old clause extended by one literal of the alternative", node=st)
     rets = A.returns(oc.node)
     ctx.check("R4", oc, any(A.unparse(r.value) == "[]" for r in rets), "cnf-empty-or", "an any-of without children has no clauses listed (handled before distribution)")
+
+    # ---- R5 no closure built in a loop outlives its iteration (cross products built lazily) -----------------------
+    G.late_binding(ctx, "R5", ["src/pkgcore/restrictions/boolean.py", "src/pkgcore/restrictions/values.py", "src/pkgcore/restrictions/packages.py",
+                                "src/pkgcore/restrictions/restriction.py"])
+    ctx.floor("R5", 1)
+
+    # ---- R6 an except-fallback inside match() consults every configuration field the main path consults -----------
+    from ..core import eqhash
+    EQ = eqhash.Engine(P)
+    n6 = 0
+    for modname in ("pkgcore.restrictions.values", "pkgcore.restrictions.packages", "pkgcore.restrictions.boolean", "pkgcore.restrictions.restriction"):
+        for K in P.module(modname).classes.values():
+            m = K.methods.get("match")
+            if m is None:
+                continue
+            owner_, fields = EQ.attr_comparison(K)
+            fields = set(fields or ())
+            for t in [n for n in A.body_walk(m.node) if isinstance(n, ast.Try)]:
+                def cfg_reads(stmts):
+                    return {n.attr for st_ in stmts for n in ast.walk(st_) if isinstance(n, ast.Attribute) and isinstance(n.value, ast.Name) and n.value.id == "self" and n.attr in fields}
+                def returns_value(stmts):
+                    return any(isinstance(n, ast.Return) and n.value is not None and not isinstance(n.value, ast.Constant) for st_ in stmts for n in ast.walk(st_))
+                if not returns_value(t.body):
+                    continue
+                for h in t.handlers:
+                    if not returns_value(h.body):
+                        continue
+                    n6 += 1
+                    lost = sorted(cfg_reads(t.body) - cfg_reads(h.body))
+                    ctx.check("R6", m, not lost, f"fallback-ignores:{K.name}:{','.join(lost)}",
+                              f"{K.name}.match: the `except {A.unparse(h.type) if h.type else ''}` fallback consults the same compared fields as the main path",
+                              f"{K.name}.match: the `except {A.unparse(h.type) if h.type else ''}` fallback no longer consults {lost}, which the main path (and equality) "
+                              f"distinguish: values that can only be tested with `in` are matched as if {lost} had its default", node=h)
+    ctx.require(n6 >= 1, "no try/except fallback with a computed result found in any restriction match()")
+    ctx.floor("R6", 1)
 
 
 MUTANTS = [
